@@ -22,7 +22,7 @@ CHECKS = {
 
 CHECKS["C02"] = {
     "technique": "MIR abstract interpretation on fully expanded, tree-shaped bodies: per-path postconditions (success exit = source address with source extent == target extent; rejecting exits only under len != N) + delegation, signature-region and aggregate-position rules",
-    "text": "Static analysis of the polymorphic MIR (length N symbolic, so the verdict covers every N and T): the view constructors return (address of self, N elements); at each slice-to-array reborrow the dominating branch facts prove len == N exactly (a `<`/`>`/`>=` guard is reported, and so is a comparison of values cast to a narrower integer type or with typenum's narrow constants such as N::U32 - truncated quantities say nothing about the length), the rejecting exits are reached only under len != N, and the success value is the source pointer itself; [T; U] conversions have equal symbolic sizes under the Const<U>: IntoArrayLength<ArrayLength = N> clause; the trait forms delegate to those; the 24 tuple impls keep operand i at position i; every returned reference's region and mutability is tied to its source parameter. A sweep applies the exact-extent rule to any other slice-derived reborrow in the crate. C02.M: the same write-permission rule for the mutable views. The fallible forms have no panicking exit: no explicit panic or compiler-inserted check that can fail, no std call whose panic condition (split_at: mid <= len, unwrap: the right variant ..) is not excluded.",
+    "text": "Static analysis of the polymorphic MIR (length N symbolic, so the verdict covers every N and T): the view constructors return (address of self, N elements); at each slice-to-array reborrow the dominating branch facts prove len == N exactly (a `<`/`>`/`>=` guard is reported, and so is a comparison of values cast to a narrower integer type or with typenum's narrow constants such as N::U32 - truncated quantities say nothing about the length), the rejecting exits are reached only under len != N, and the success value is the source pointer itself; [T; U] conversions have equal symbolic sizes under the Const<U>: IntoArrayLength<ArrayLength = N> clause; the trait forms delegate to those; the 24 tuple impls keep operand i at position i; every returned reference's region and mutability is tied to its source parameter. A sweep applies the exact-extent rule to any other slice-derived reborrow in the crate. C02.M: the same write-permission rule for the mutable views. The fallible forms have no panicking exit: no explicit panic or compiler-inserted check that can fail, no std call whose panic condition (split_at: mid <= len, unwrap: the right variant ..) is not excluded. The view constructors are total as well: no reachable panic in any of them (a view that asserts something about N * size_of::<T>() can fail).",
     "design_ref": "DESIGN.md §3 C02",
     "note": TRUST + " 'A write through one view is seen through all others' is entailed by same address + same extent and is not separately observed.",
 }
@@ -55,7 +55,7 @@ CHECKS["C01"] = {
 
 CHECKS["C03"] = {
     "technique": "per-operation ownership-linearity: byte provenance of the owned sequence operations, step protocol (closure or explicit loop: one read/write and one position advance per step), per-path partition of the iterator's claimed range, Drop-range extraction, finisher evidence (position == N or a full traversal), finish-to-hand-over window",
-    "text": "Static analysis (MIR, lengths symbolic): 'exactly once over all histories' is reduced to ownership-linearity of each operation, which composes over any chain by induction. Checked: (T) in each by-value sequence operation the pieces read out of the drop-suppressed source / written into the uninitialised output tile it exactly once; (P) every element-moving closure reads (writes) its slot exactly once and advances each owner position exactly once per invocation on every path, untracked readers exist only under needs_drop == false; (R) each tracked owner's Drop releases exactly [0,position) / [position,N) / [index,index_back) of its own storage and the storage field has no drop glue; (F) every finish/forget/assume_init of a builder or iterator is reached only where position == N is implied by the dominating facts or after a full traversal of the owner's storage by a protocol closure; (S) every ManuallyDrop::new / mem::forget of a value with element drop glue belongs to an accounted pattern; (A) the assume_init family reinterprets whole storage of equal symbolic size. Nothing is executed; destructor calls are not observed. C03.U: no element out of nothing - assume_init that turns freshly made uninitialised storage (MaybeUninit::uninit, Box::new_uninit ..) into a type holding real elements is dominated by a builder's finish() (whose completeness is C03.F).",
+    "text": "Static analysis (MIR, lengths symbolic): 'exactly once over all histories' is reduced to ownership-linearity of each operation, which composes over any chain by induction. Checked: (T) in each by-value sequence operation the pieces read out of the drop-suppressed source / written into the uninitialised output tile it exactly once; (P) every element-moving closure reads (writes) its slot exactly once and advances each owner position exactly once per invocation on every path, untracked readers exist only under needs_drop == false; (R) each tracked owner's Drop releases exactly [0,position) / [position,N) / [index,index_back) of its own storage and the storage field has no drop glue; (F) every finish/forget/assume_init of a builder or iterator is reached only where position == N is implied by the dominating facts or after a full traversal of the owner's storage by a protocol closure; (S) every ManuallyDrop::new / mem::forget of a value with element drop glue belongs to an accounted pattern; (A) the assume_init family reinterprets whole storage of equal symbolic size. Nothing is executed; destructor calls are not observed. C03.U: no element out of nothing - assume_init that turns freshly made uninitialised storage (MaybeUninit::uninit, Box::new_uninit ..) into a type holding real elements is dominated by a builder's finish() (whose completeness is C03.F). C03.V: on every return path of the Vec / boxed-slice conversions that passes a Vec::set_len(k), the elements beyond k were copied out of the buffer first - a refusal path cannot forget them.",
     "design_ref": "DESIGN.md §3 C03",
     "note": TRUST + " Panic-free histories only (panics: C04, C05). Vec/Box interop is safe std code or C15's instances.",
 }
@@ -121,7 +121,7 @@ CHECKS["C16"] = {
 
 CHECKS["C17"] = {
     "technique": "MIR rules on the serde impls: serializer-call skeleton, per-path facts at every Ok(array) exit (builder full, after finish, no-surplus evidence), builder step protocol and owner liveness on ?/unwind paths",
-    "text": "Static analysis of impl_serde.rs: serialize = serialize_tuple(N)?, one serialize_element per item of the full forward iteration of &self (passing that item), then end() - no other serializer entry point, hence no length prefix; deserialize = deserialize_tuple(N, visitor); visit_seq rejects up front only under size_hint = Some(n), n != N, reads one next_element()? per destination slot into that slot and counts it (builder protocol), constructs Ok only under position == N and, on every CFG edge into the success path, either the remaining-size hint equals the probe constant or the extra next_element::<Dummy>()? returned None, keeps the builder live (dropped) on every unwind and `?` path so the elements read so far are released exactly once, and reaches finish/array_assume_init only on the success path. PARTIAL: round-trip equality through a concrete format is a property of serializer/deserializer pairs executed on data and is not claimed. The up-front hint check is complete: every path from size_hint to the first element read carries `None` or `hint == N` (a source announcing more than N is rejected before anything is read).",
+    "text": "Static analysis of impl_serde.rs: serialize = serialize_tuple(N)?, one serialize_element per item of the full forward iteration of &self (passing that item), then end() - no other serializer entry point, hence no length prefix; deserialize = deserialize_tuple(N, visitor); visit_seq rejects up front only under size_hint = Some(n), n != N, reads one next_element()? per destination slot into that slot and counts it (builder protocol), constructs Ok only under position == N and, on every CFG edge into the success path, either the remaining-size hint equals the probe constant or the extra next_element::<Dummy>()? returned None, keeps the builder live (dropped) on every unwind and `?` path so the elements read so far are released exactly once, and reaches finish/array_assume_init only on the success path. PARTIAL: round-trip equality through a concrete format is a property of serializer/deserializer pairs executed on data and is not claimed. The up-front hint check is complete: every path from size_hint to the first element read carries `None` or `hint == N` (a source announcing more than N is rejected before anything is read). C17.I entry points: the Serialize / Deserialize impls override nothing but serialize / deserialize and the crate has exactly one serde Visitor impl, so the judged visit_seq is the only way in (deserialize_in_place with a visitor of its own is reported).",
     "design_ref": "DESIGN.md §3 C17",
     "note": TRUST + " serde implementations honour their trait contracts; the probe constant Some(0) sits in a promoted constant whose value is not inspected.",
 }
